@@ -44,6 +44,11 @@ JOINTS = (
   ("ball", "hingeslide", "slide"),
   ("slide", "ball", "hinge"),
   ("hinge", "hinge", "hingeslide"),
+  # bodies without a joint of their own (rigidly attached to a moving or to the world body): their derived constants are
+  # evaluated through the dofs of an ancestor, at their own centre of mass
+  ("hinge", "weld", "slide"),
+  ("ball", "hinge", "weld"),
+  ("weld", "hinge", "weld"),
 )
 CAM_MODES = ("fixed", "track", "trackcom", "targetbody", "targetbodycom")
 CHANGES = (
